@@ -819,6 +819,17 @@ func TestC08(t *testing.T) {
 					violate("api", fmt.Sprintf("CreateSubscription with invalid filter %q: err=%v, subscription exists=%v", s, err, gerr == nil), true, s)
 					return false
 				}
+				// the verdict on a string does not depend on whether it has been offered before: the same
+				// request again (a client's retry), and the same filter for another subscription
+				for rep, nm := range []string{name, name + "-again"} {
+					_, err := sub.CreateSubscription(w.Ctx, &pubsubpb.Subscription{Name: nm, Topic: "projects/p/topics/t", Filter: s})
+					_, gerr := sub.GetSubscription(w.Ctx, &pubsubpb.GetSubscriptionRequest{Subscription: nm})
+					apiChecked++
+					if status.Code(err) != codes.InvalidArgument && status.Code(err) != codes.Unknown || gerr == nil {
+						violate("api-repeat", fmt.Sprintf("CreateSubscription with invalid filter %q was rejected the first time; offered again (request %d) the answer is err=%v, subscription exists=%v", s, rep+2, err, gerr == nil), true, s)
+						return false
+					}
+				}
 			}
 			return true
 		}
@@ -833,6 +844,7 @@ func TestC08(t *testing.T) {
 			t.Fatal(err)
 		}
 		var tryUpdateOn func(uname, s string, wantOK bool) bool
+		nUpd := 0
 		tryUpdate := func(s string, wantOK bool) bool {
 			if !wantOK && !tryUpdateOn(uname0, s, false) {
 				return false
@@ -844,8 +856,12 @@ func TestC08(t *testing.T) {
 				return true
 			}
 			before, _ := sub.GetSubscription(w.Ctx, &pubsubpb.GetSubscriptionRequest{Subscription: uname})
+			// the filter is validated wherever "filter" stands in the update mask
+			masks := [][]string{{"filter"}, {"labels", "filter"}, {"filter", "labels"}, {"enable_message_ordering", "labels", "filter"}, {"filter"}}
+			mask := masks[nUpd%len(masks)]
+			nUpd++
 			_, err := sub.UpdateSubscription(w.Ctx, &pubsubpb.UpdateSubscriptionRequest{
-				Subscription: &pubsubpb.Subscription{Name: uname, Filter: s}, UpdateMask: &fieldmaskpb.FieldMask{Paths: []string{"filter"}}})
+				Subscription: &pubsubpb.Subscription{Name: uname, Filter: s, Labels: before.GetLabels(), EnableMessageOrdering: before.GetEnableMessageOrdering()}, UpdateMask: &fieldmaskpb.FieldMask{Paths: mask}})
 			after, gerr := sub.GetSubscription(w.Ctx, &pubsubpb.GetSubscriptionRequest{Subscription: uname})
 			apiChecked++
 			if gerr != nil {
@@ -853,11 +869,11 @@ func TestC08(t *testing.T) {
 				return false
 			}
 			if wantOK && (err != nil || after.Filter != s) {
-				violate("api-update", fmt.Sprintf("UpdateSubscription with the grammar sentence %q as filter: err=%v, stored filter %q", s, err, after.Filter), true, s)
+				violate("api-update", fmt.Sprintf("UpdateSubscription (mask %v) with the grammar sentence %q as filter: err=%v, stored filter %q", mask, s, err, after.Filter), true, s)
 				return false
 			}
 			if !wantOK && (err == nil || after.Filter != before.Filter) {
-				violate("api-update", fmt.Sprintf("UpdateSubscription of %s with the non-sentence %q as filter: err=%v, stored filter %q -> %q", uname, s, err, before.Filter, after.Filter), true, s)
+				violate("api-update", fmt.Sprintf("UpdateSubscription of %s (mask %v) with the non-sentence %q as filter: err=%v, stored filter %q -> %q", uname, mask, s, err, before.Filter, after.Filter), true, s)
 				return false
 			}
 			return true
